@@ -119,7 +119,29 @@ def run_sequence(ctx, rng):
         before_start = None
         for _ in range(rng.choice([1, 2, 4, 7])):
             r = rng.random()
-            if r < 0.45:
+            if r < 0.12:
+                # a start during which the channel cannot be created: it raises, and leaves the process as it found it
+                hooks_now = (sys.gettrace(), threading.gettrace())
+                was_started = d.started
+
+                def refuse():
+                    raise ConnectionError("service unreachable")
+                d.grpc.start = refuse
+                try:
+                    d.start()
+                    if not was_started:
+                        problems.append(("failing-start-silent", "a start whose channel raised returned normally"))
+                except ConnectionError:
+                    pass
+                except BaseException as e:
+                    problems.append(("start-raised", "a failing start raised %r instead of the transport's error" % (e,)))
+                d.grpc.start = lambda: None
+                if not was_started and (sys.gettrace(), threading.gettrace()) != hooks_now:
+                    problems.append(("failed-start-hooks", "after a start that failed the hooks are (%s, %s); before it they were (%s, %s)" % (
+                        hook_no(sys.gettrace(), d.trigger_handler), hook_no(threading.gettrace(), d.trigger_handler),
+                        hook_no(hooks_now[0], d.trigger_handler), hook_no(hooks_now[1], d.trigger_handler))))
+                ops.append(dict(kind=3))
+            elif r < 0.45:
                 if not d.started:
                     before_start = (sys.gettrace(), threading.gettrace())
                 try:
